@@ -7,6 +7,8 @@ import ALock.Lemmas.Potential
 import ALock.Lemmas.RwLockWord
 import ALock.Lemmas.OnceCell
 import ALock.Lemmas.Barrier
+import ALock.Lemmas.SemWoken
+import ALock.Lemmas.MutexWoken
 
 /-!
 # C17 — Blocked operations sleep: no busy-waiting
@@ -40,8 +42,10 @@ So a wake-up cycle among pending futures is impossible in the model; the differe
 model's settle (`settled k` compares the number of polls and the wakers called) to the real crate,
 and the harness evaluates the bound `polls ≤ 5·pending` on the implementation at every settle.
 
-Not proved: that `woken` only ever names pending futures, each at most once (so that
-`woken ≤ pending`); the harness's woken set is a set of pending future ids by construction.
+That `woken` only ever names pending futures, each at most once (`woken ≤ pending`) is proved for
+the Semaphore and the Mutex (`C17_sem_woken_le`, `C17_mutex_woken_le`; bounds in `pending` alone:
+`C17_sem_pending`, `C17_mutex_pending`); for the other three primitives it is not proved (the
+harness's woken set is a set of pending future ids by construction).
 Polls are atomic; thread interleavings and parked threads are outside the model.
 -/
 
@@ -136,6 +140,22 @@ theorem C17_sem (n0 : Nat) (ops : List Op) {n : Nat} {s' : Sys}
   have := phi_le (run (Sys.new n0) ops)
   omega
 
+/-- outstanding wake-ups never outnumber the pending acquisitions: every one of them is the owner of
+its own notified listener, and every listener belongs to a polled, uncompleted future
+(`Lemmas/SemWoken.lean`, invariant `WkInv`) -/
+theorem C17_sem_woken_le (n0 : Nat) (ops : List Op) :
+    (run (Sys.new n0) ops).woken.length ≤ (pendingPolled (run (Sys.new n0) ops)).length :=
+  (run_wk _ ops (init_wk n0)).woken_le
+
+/-- **C17 (Semaphore), in the number of pending acquisitions alone**: at most `3 × pending`
+re-polls. -/
+theorem C17_sem_pending (n0 : Nat) (ops : List Op) {n : Nat} {s' : Sys}
+    (h : Repolls (run (Sys.new n0) ops) n s') :
+    n ≤ 3 * (pendingPolled (run (Sys.new n0) ops)).length := by
+  have := C17_sem n0 ops h
+  have := C17_sem_woken_le n0 ops
+  omega
+
 end ALock.Sem
 
 namespace ALock.Mutex
@@ -200,6 +220,19 @@ theorem C17_mutex (ops : List Op) {n : Nat} {s' : Sys} (h : Repolls (run {} ops)
   have hi := reachable_inv ops
   have := repolls_phi hi h
   have := phi_le _ hi
+  omega
+
+/-- outstanding wake-ups never outnumber the pending lock operations (`Lemmas/MutexWoken.lean`:
+every outstanding wake-up is the owner of its own notified `lock_ops` listener, through every
+branch of `lockPoll`, including the one in which the future's own fresh listener is notified) -/
+theorem C17_mutex_woken_le (ops : List Op) :
+    (run {} ops).c.woken.length ≤ (pendingPolled (run {} ops)).length := woken_le ops
+
+/-- **C17 (Mutex), in the number of pending lock operations alone**: at most `5 × pending` re-polls. -/
+theorem C17_mutex_pending (ops : List Op) {n : Nat} {s' : Sys} (h : Repolls (run {} ops) n s') :
+    n ≤ 5 * (pendingPolled (run {} ops)).length := by
+  have := C17_mutex ops h
+  have := C17_mutex_woken_le ops
   omega
 
 end ALock.Mutex
